@@ -25,27 +25,28 @@ PREDS = ['mod10', 'p_big', 'p_str', 'p_mixed']
 
 
 def bounds(tier):
-    return {'max_len': 7 if tier == 'quick' else 9, 'classes': 3, 'predicates': PREDS,
-            'raw_depth': 7 if tier == 'quick' else 9}
+    return {'max_len': 8 if tier == 'quick' else 10, 'classes': 3, 'predicates': PREDS,
+            'raw_depth': 8 if tier == 'quick' else 10}
 
 
 def units(tier):
     out = []
-    L = 7 if tier == 'quick' else 9
+    L = 8 if tier == 'quick' else 10
+    nt = 8 if tier == 'quick' else 16
     for p in PREDS:
-        for sh in range(4):
-            out.append({'fam': 'top', 'pred': p, 'L': L, 'shard': [sh, 4]})
+        for sh in range(nt):
+            out.append({'fam': 'top', 'pred': p, 'L': L, 'shard': [sh, nt]})
     Lg = 3 if tier == 'quick' else 4
     sizes = [(a, b) for a in range(1, Lg + 1) for b in range(1, Lg + 1)]
     for p in ('p_big', 'p_mixed'):
         for part in spaces.shard(sizes, 8):
             out.append({'fam': 'grouped', 'pred': p, 'sizes': part})
-    Ln = 6 if tier == 'quick' else 7
+    Ln = 6 if tier == 'quick' else 8
     for (w, s) in [(2, 1), (2, 2), (3, 2), (1, 2)]:
         out.append({'fam': 'inroll', 'w': w, 's': s, 'L': Ln})
     out.append({'fam': 'insplit', 'L': Ln})
-    d = 7 if tier == 'quick' else 9
-    n = 4 if tier == 'quick' else 16
+    d = 8 if tier == 'quick' else 10
+    n = 8 if tier == 'quick' else 32
     for keys in ([0, 1], [1, 3]):
         for sh in range(n):
             out.append({'fam': 'raw', 'keys': keys, 'depth': d, 'shard': [sh, n]})
